@@ -119,7 +119,9 @@ impl FormMultipartData {
                 return Err(message.to_string())
             }
 
-            if bytes_read == total_bytes as i128 {
+            let is_end_of_body = bytes_read == total_bytes as i128;
+            if is_end_of_body && current_string_is_empty && part.headers.len() == 0 {
+                // line break after the last delimiter
                 return Ok(part_list)
             }
 
@@ -139,6 +141,11 @@ impl FormMultipartData {
 
                 let header = boxed_header.unwrap();
                 part.headers.push(header);
+            }
+
+            if is_end_of_body {
+                let message = "No end boundary present in the multipart/form-data request body";
+                return Err(message.to_string());
             }
         }
 
